@@ -783,8 +783,8 @@ func cmdCheck(args []string) int {
 	}
 	solveAll(solveList, *workers, budget, false)
 	// An undecided obligation may be a casualty of machine load (a dozen workers racing three
-	// solvers each): the undecided ones are tried once more, two at a time, with the same
-	// budget for the solver race and three times the wall-clock limits of the cheap first attempts.
+	// solvers each): the undecided ones are tried once more, two at a time, with three
+	// times the budget for the solver race and for the cheap first attempts.
 	// A refuted obligation (sat) is never retried.
 	var retry []*Obligation
 	for _, o := range solveList {
@@ -796,7 +796,7 @@ func cmdCheck(args []string) int {
 		for _, o := range retry {
 			o.Result = nil
 		}
-		rb := budget
+		rb := budget * 3
 		stageScale = 3
 		solveAll(retry, 2, rb, false)
 		stageScale = 1
